@@ -1,10 +1,113 @@
 (* C21 -- Serialiser/deserialiser framework round-trips arbitrary description programs.
-   Property theorems only.  Model: Model/SerDes.v (hand model, tie C: tools/harness/C21.py). *)
+   Property theorems only; each closed by `exact <lemma>`.
+   Model: Model/SerDes.v (hand model of bitstream/serdes.py over a bit-list model of the
+   BitstreamWriter/BitstreamReader; tie C: tools/harness/C21.py).
+   Programs are a dependent free monad [prog A]; all theorems quantify over ALL programs, ALL
+   descriptions, ALL default tables (induction on the program / invariants of the interpreter). *)
 From Coq Require Import ZArith List Bool.
-From VC2 Require Import Model.SerDes Proofs.SerDesProofs.
+From VC2 Require Import Model.SerDes Proofs.SerDesBits Proofs.SerDesWf Proofs.SerDesSim Proofs.SerDesProofs.
 Import ListNotations.
 Open Scope Z_scope.
 
+(* Round trip.  [sym p]: the program does not call is_target_complete (which, by design, answers
+   differently in a serialiser and a deserialiser) and does not branch on the zero padding of bit/byte
+   strings; [nohole]: the description is an ordinary value (no model-only reference marker).
+   Serialising description (ty, f) with defaults D succeeds with result a and verify_complete passes
+   ==> deserialising the produced bits, followed by ANY further bits R, with the same program succeeds
+   with the same result, consumes exactly the produced bits, verify_complete passes, and the description
+   read back is related by [vle D] to the serialiser's description: equal, except bit/byte strings
+   zero-padded to their coded length, values filled in from D, dictionaries whose type the program
+   never sets being plain dicts.  (Python's == on descriptions ignores exactly the last point.) *)
+Theorem C21_roundtrip : forall D A (p : prog A) ty f a ss',
+  sym p -> nohole (VC ty f) ->
+  run_ser D p ty f = Ok (a, ss') -> verify_complete ss' = Ok tt ->
+  forall R, exists sd',
+    run_des p (bits (sio ss') ++ R) = Ok (a, sd') /\
+    bits (sio sd') = R /\ pos (sio sd') = pos (sio ss') /\
+    verify_complete sd' = Ok tt /\
+    vle D (root ss') (root sd').
+Proof. exact roundtrip. Qed.
+
+(* ... in particular on the flushed byte stream *)
+Theorem C21_roundtrip_flushed : forall D A (p : prog A) ty f a ss',
+  sym p -> nohole (VC ty f) ->
+  run_ser D p ty f = Ok (a, ss') -> verify_complete ss' = Ok tt ->
+  exists sd',
+    run_des p (flush_bits (bits (sio ss'))) = Ok (a, sd') /\
+    pos (sio sd') = pos (sio ss') /\
+    verify_complete sd' = Ok tt /\
+    vle D (root ss') (root sd').
+Proof. exact roundtrip_flushed. Qed.
+
+(* each value primitive returns the same value in both interpreters (what keeps the control flow
+   of the two runs together); bit/byte strings come back zero-padded *)
+Theorem C21_primitive_roundtrip : forall k v w w',
+  write_val k v w = Ok w' ->
+  exists X v', bits w' = bits w ++ X /\ dle v v' /\
+    forall R, read_val k (rd_of w (X ++ R)) = Ok (v', rd_of w' R).
+Proof. exact write_val_read_val. Qed.
+
+(* A provided value that nothing consumed, or a list not consumed to its end, in the dictionary
+   being closed: UnusedTargetError, at the end of the run ... *)
+Theorem unused_value_fails : forall D A (p : prog A) ty f a s,
+  prog_ok p -> nohole (VC ty f) -> run_ser D p ty f = Ok (a, s) -> unused_in s ->
+  verify_complete s = Err EUnused.
+Proof. exact unused_value_fails. Qed.
+(* ... and whenever a nested context is left *)
+Theorem unused_value_fails_at_leave : forall s, wf s -> unused_in s -> subcontext_leave s = Err EUnused.
+Proof. exact unused_fails_leave. Qed.
+
+(* A needed value that is absent and has no default: KeyError; a list with no element left and no
+   default: ListTargetExhaustedError -- for every value primitive, whatever follows. *)
+Theorem missing_value_fails : forall D A o (kont : result o -> prog A) k t s,
+  op_prim o = Some (k, t) -> dlookup D (c_ty s) t = None ->
+  (alookup t (c_ix s) = None -> alookup t (c_f s) = None ->
+     run (ser_step D) (Op o kont) s = Err EKey) /\
+  (forall i l, alookup t (c_ix s) = Some (Nxt i) -> alookup t (c_f s) = Some (VL l) -> (length l <= i)%nat ->
+     run (ser_step D) (Op o kont) s = Err EExhausted).
+Proof. exact missing_value_fails. Qed.
+(* ... unless a default exists, which is then the value written and returned *)
+Theorem missing_value_default : forall D k t s d,
+  alookup t (c_ix s) = None -> alookup t (c_f s) = None -> dlookup D (c_ty s) t = Some d ->
+  ser_prim D k t s =
+    rbind (write_val k d (sio s)) (fun w => Ok (d, set_io (set_ix s (aupd t Used (c_ix s))) w)).
+Proof. exact missing_key_default. Qed.
+
+(* a second write to a plain target is ReusedTargetError (both interpreters) *)
 Theorem C21_second_write_is_ReusedTarget : forall t v s,
   alookup t (c_ix s) = Some Used -> set_value t v s = Err EReused.
 Proof. exact set_value_reused. Qed.
+
+(* set_context_type on any reachable ([wf]) state, in either interpreter: no failure; the enclosing
+   dictionaries are unchanged and reference the NEW, retyped dictionary in the slot their index
+   bookkeeping designates (parent[target] or parent[target][index-1]) -- no stale alias; the root
+   description is the old root with the current dictionary retyped in place *)
+Theorem set_type_consistent : forall prim ty s u s', wf s ->
+  step prim (OSetType ty) s = Ok (u, s') ->
+  c_ty s' = ty /\ c_f s' = c_f s /\ stk s' = stk s /\ wf s' /\
+  root s' = root_with (stk s) (VC ty (c_f s)).
+Proof. exact set_type_consistent. Qed.
+(* every state reached by a run from a well-formed state is well formed *)
+Theorem C21_reachable_wf_ser : forall D A (p : prog A) s a s',
+  prog_ok p -> wf s -> run (ser_step D) p s = Ok (a, s') -> wf s'.
+Proof. exact (fun D A p s a s' Hp => run_wf (ser_prim D) A p (ser_prim_wf D) Hp s a s'). Qed.
+Theorem C21_reachable_wf_des : forall A (p : prog A) s a s',
+  prog_ok p -> wf s -> run des_step p s = Ok (a, s') -> wf s'.
+Proof. exact (fun A p s a s' Hp => run_wf des_prim A p des_prim_wf Hp s a s'). Qed.
+
+(* non-vacuity: a program with a typed subcontext holding a list, a default used inside the list, a
+   bounded block with trailing padding, byte alignment, a computed value and a data-dependent
+   branch satisfies the hypotheses of C21_roundtrip *)
+Example C21_example :
+  sym ex_prog /\ nohole (VC 0 ex_fields) /\
+  exists s, run_ser ex_defaults ex_prog 0 ex_fields = Ok (tt, s) /\ verify_complete s = Ok tt /\
+    length (bits (sio s)) = 28%nat /\
+    exists s', run_des ex_prog (flush_bits (bits (sio s))) = Ok (tt, s') /\
+      root s' = VC 1 [(0, VI 2); (1, VC 2 [(2, VL [VI 9; VI 4]); (3, VI 3)]); (4, VI (-1));
+                      (5, VBits [false]); (6, VBits [true; false; true; false]);
+                      (7, VBits [true; false; false; false])].
+Proof.
+  split; [exact ex_prog_sym|]. split; [simpl; tauto|].
+  eexists. split; [vm_compute; reflexivity|]. split; [vm_compute; reflexivity|].
+  split; [vm_compute; reflexivity|]. eexists. split; vm_compute; reflexivity.
+Qed.
